@@ -277,8 +277,10 @@ pub fn split_into_fields(
     }
 
     if ifs_chars.is_empty() {
+        // default IFS: runs of blanks separate fields, they do not make empty ones
         return line
             .split(&[' ', '\t', '\n'][..])
+            .filter(|x| !x.is_empty())
             .map(|x| x.to_string())
             .collect();
     } else {
